@@ -242,6 +242,52 @@ Example ex_list_history :
                                  (init_slots (VList T_I32 [VI32 1; VI32 2; VI32 3]))) = Some (VList T_I32 [VI32 9; VI32 7; VI32 3]).
 Proof. vm_compute. reflexivity. Qed.
 
+(* ================================================================================================================ *)
+(* Round 3: ERROR nodes (the result of a FAILED lookup stored unchecked as a child) — such a tree has no encoding.  *)
+(* Definitions: coq/model/ThriftDomErr.v (+ the ERROR test at the head of marshal in ThriftDom.v);                  *)
+(* proofs: coq/proofs/ThriftDomErrProofs.v.                                                                         *)
+(* ================================================================================================================ *)
+From DG Require Import ThriftDomErr ThriftDomErrProofs.
+
+(* marshal fails whenever it meets an ERROR node: the node itself, or any child of a container that is not skipped as
+   empty (cleared children ARE skipped: C05_marshal_skips_holes / C05_marshal_dom) *)
+Theorem C05_marshal_error_node_fails : forall x, has_error x = true -> marshal x = None.
+Proof. exact marshal_error_node_fails. Qed.
+Print Assumptions C05_marshal_error_node_fails.
+
+(* and only then: with map children under keys of the map's key kind and supported node types, marshal succeeds
+   IFF it meets no ERROR node — an ERROR child is never silently dropped, an empty child always is *)
+Theorem C05_marshal_ok_iff_no_error_node : forall x, marshal_shape x = true ->
+  ((exists b, marshal x = Some b) <-> has_error x = false).
+Proof. exact marshal_ok_iff_no_error_node. Qed.
+Print Assumptions C05_marshal_ok_iff_no_error_node.
+
+(* the edit "store the result of a failed lookup under key k" (existing key, or a new non-index key) on a loaded
+   container node makes Marshal fail, whatever the error code *)
+Theorem C05_set_error_node_fails : forall t et kt raw kids k code, is_container t = true ->
+  has_kid k kids = true \/ is_index_key k = false ->
+  marshal (tree_of_dom (dom_set_err (DNode t et kt raw kids) k code)) = None.
+Proof. exact set_error_node_fails. Qed.
+Print Assumptions C05_set_error_node_fails.
+
+(* examples: a not-found node stored under field 255 of ex_val, under a new map key, at a list index: no encoding;
+   clearing instead keeps the tree marshallable (the element is gone, the count rewritten) *)
+Example ex_err_struct : marshal (tree_of_dom (dom_set_err (dom_of true false ex_val) (KField 255) 1)) = None.
+Proof. vm_compute. reflexivity. Qed.
+Example ex_err_map_new_key : marshal (tree_of_dom (dom_set_err (dom_of true false ex_map) (KStr [122]) 1)) = None.
+Proof. vm_compute. reflexivity. Qed.
+Example ex_err_list : marshal (tree_of_dom (dom_set_err (dom_of false false (VList T_I32 [VI32 1; VI32 2])) (KIndex 1) 1)) = None.
+Proof. vm_compute. reflexivity. Qed.
+Example ex_err_nested : marshal (tree_of_dom (dom_upd [KField 256] (fun d => dom_set_err d (KStr [107; 49]) 1) (dom_of true false ex_val))) = None.
+Proof. vm_compute. reflexivity. Qed.
+Example ex_clear_list : marshal (tree_of_dom (dom_step (dom_of false false (VList T_I32 [VI32 1; VI32 2])) (OClear (KIndex 1)))) =
+  Some (encode (VList T_I32 [VI32 1])).
+Proof. vm_compute. reflexivity. Qed.
+Example ex_err_shape : marshal_shape (tree_of_dom (dom_set_err (dom_of true false ex_val) (KField 255) 1)) = true /\
+                       has_error (tree_of_dom (dom_set_err (dom_of true false ex_val) (KField 255) 1)) = true /\
+                       has_error (tree_of_dom (dom_of true false ex_val)) = false.
+Proof. vm_compute. auto. Qed.
+
 (* ================================================================== (G) the probing loop from the Go source *)
 (* thrift/generic/path.go seekIntHash is translated from the Go text on every build (gen/Gen_domhash.v): the counted loop with break is a
    structural recursion whose fuel is the iteration bound N, the slot read through rt.IndexPtr a function-valued atom (slot index ->
